@@ -4,4 +4,4 @@ CONSTANTS
   MaxN = 20
   NoFixBug = FALSE
   StepBug = FALSE
-INVARIANTS Inside StepLaw AdvanceLaw RALaw
+INVARIANTS Inside StepLaw AdvanceLaw RALaw PostLaw SubscriptLaw
